@@ -596,7 +596,7 @@ func main() {
 			fmt.Printf("replay of kind %q: the case is regenerated by the run below (same seed)\n", rp.Kind)
 		}
 	}
-	nblocks := o.Pick(60, 1500)
+	nblocks := o.Pick(60, 800)
 	for made := 0; made < nblocks; {
 		l := w.r.Range(1, 6)
 		x.chain(l)
